@@ -491,22 +491,10 @@ size_t varintAdaptiveDecode(const uint8_t *src, uint64_t *values,
         /* Bitmap encoding is self-describing, pass large buffer size */
         varintBitmap *vb = varintBitmapDecode(data, 1024 * 1024);
         if (vb) {
-            /* Extract values from bitmap */
-            size_t allocSize;
-            uint16_t *shortValues = NULL;
-            if (!size_mul_overflow(maxCount, sizeof(uint16_t), &allocSize)) {
-                shortValues = malloc(allocSize);
-            }
-
-            if (shortValues) {
-                uint32_t count = varintBitmapToArray(vb, shortValues);
-                decoded = count < maxCount ? count : maxCount;
-
-                for (size_t i = 0; i < decoded; i++) {
-                    values[i] = shortValues[i];
-                }
-
-                free(shortValues);
+            /* Extract at most maxCount values, in ascending order */
+            varintBitmapIterator it = varintBitmapCreateIterator(vb);
+            while (decoded < maxCount && varintBitmapIteratorNext(&it)) {
+                values[decoded++] = it.currentValue;
             }
             varintBitmapFree(vb);
         }
